@@ -1138,7 +1138,8 @@ func c20CarrierKinds() []string {
 }
 
 var c20NumTexts = []string{"3.5", "-2", "1e3", "0", "10", "-0.25", "7", "2.5e-3", "+4", "1E2", "-1e-2", "100", "0.1", "16", "3",
-	"010", "0017", "08", "007.50", "-012"} // zero-padded decimals are decimals
+	"010", "0017", "08", "007.50", "-012", // zero-padded decimals are decimals
+	".5", ".25", "-.5", "+.5", "5.", "-3.", ".5e1", "00", "1_0"[:1] + "0"} // no digit before / after the point
 
 // c20Operand picks a value of the given carrier kind.
 func c20Operand(r *Run, name, kind string, salt int) c20Var {
